@@ -41,6 +41,7 @@ VIEW_VALUE = re.compile(mir.VIEW.pattern[:-2] + r"|value|next|into_iter)$")
 
 EXPLANATION += ' (R9) what Replica::insert / delete_prefix offer to the store does not depend on what the store holds at that moment (= C03.R9 with cells on the stored state).'
 EXPLANATION += " (R10, round 9) RecordsBounds::author_key evaluated on concrete ids - incl. ids ending in 0xFF / all-0xFF - and prefixes - incl. empty, ending in 0xFF -, the range decided on sample rows of this author, greater and smaller authors and the next document: exactly (this document, this author, keys starting with the prefix). R5's `removed` clause is decided by R1's evaluated rows."
+EXPLANATION += " (R12, round 10) = the entry_put cells of C18.R2: every admitted entry gets its record and its index row, whether or not it is newer than the author's head."
 
 
 def _label_put_operand(body, op):
